@@ -61,3 +61,40 @@ Theorem C13_operation_overrides_transport :
   choose_context false true = FromTransport /\ choose_context false false = Background.
 Proof. exact operation_overrides. Qed.
 Print Assumptions C13_operation_overrides_transport.
+
+(* ---- the client OBJECT that carries the call (redirect policy, jar, timeout, transport) ---- *)
+
+(* what Submit does satisfies the predicate the correspondence run evaluates on the implementation:
+   with an operation client, the call behaves as that client alone determines; else as the runtime client does *)
+Theorem C13_right_client_carries : forall op rt slow, right_client op rt slow (route_call op rt slow) = true.
+Proof. exact right_client_route. Qed.
+Print Assumptions C13_right_client_carries.
+
+(* and the predicate accepts no other behaviour *)
+Theorem C13_right_client_exact : forall op rt slow t, right_client op rt slow t = true -> t = route_call op rt slow.
+Proof. exact right_client_unique. Qed.
+Print Assumptions C13_right_client_exact.
+
+(* an operation client is used whichever fields it sets - also one without a Transport of its own: the runtime
+   client plays no part in the call *)
+Theorem C13_operation_client_alone : forall c rt rt' slow, route_call (Some c) rt slow = route_call (Some c) rt' slow.
+Proof. exact op_client_alone. Qed.
+Print Assumptions C13_operation_client_alone.
+
+(* a call carried by some runtime client instead is rejected as soon as the operation client sets anything *)
+Theorem C13_runtime_client_instead_is_rejected : forall c rt rt',
+  c_transport c = true \/ c_jar c = true \/ c_redirect c <> 0 ->
+  right_client (Some c) rt false (run_client who_rt rt' false) = false.
+Proof. exact other_client_rejected. Qed.
+Print Assumptions C13_runtime_client_instead_is_rejected.
+
+(* ---- several calls on one runtime: a response kept by its reader answers for its own call only ---- *)
+Theorem C13_kept_response_is_its_own_call : forall cs1 pc cs2,
+  nth_error (retained_all (cs1 ++ pc :: cs2)) (length cs1) = Some (retained_view (snd pc)).
+Proof. exact retained_independent. Qed.
+Print Assumptions C13_kept_response_is_its_own_call.
+
+Theorem C13_each_call_served_by_its_own_response : forall reg d cs1 pc cs2,
+  nth_error (submit_all reg d (cs1 ++ pc :: cs2)) (length cs1) = Some (submit_response reg d (fst pc) (snd pc)).
+Proof. exact submit_all_pointwise. Qed.
+Print Assumptions C13_each_call_served_by_its_own_response.
